@@ -112,7 +112,10 @@ inline double odd_fn(const char *name, double (*f)(double), double u)
 }
 inline double Log(double u)
 {
-    return ::log(u);
+    double v = ::log(u);
+    if (verif_symbolic_exec() && !g_numeric)
+        verif_axiom(u != 1.0 || v == 0.0);
+    return v;
 }
 
 inline double num_value(const Number &n)
